@@ -34,6 +34,11 @@ def is_decision_function(func, depth=0):
 
 def find_decision_site(program):
     sites = _atomic_sites(program)
+    # env.atomically(partial(f, ...)) is also used for things that are not
+    # the release decision (atomic publication by a worker, bookkeeping)
+    deciding = [s for s in sites if is_decision_function(s[2])]
+    if deciding:
+        sites = deciding
     # direct calls (not under atomically) of a decision function from a
     # function that is not itself a decision function
     for func in program.all_functions():
